@@ -43,6 +43,7 @@ func verifPairs() []verifPair {
 			"{ \"mod\": [ { \"m\": { \"source\": \"./m\", \"input\": \"i\" } }, { \"m\": { \"source\": \"./n\", \"other\": \"o\" } } ] }\n", 2},
 		{"flagged-on", "flagged {\n  on = true\n  extra = \"x\"\n}\n", "{ \"flagged\": { \"on\": true, \"extra\": \"x\" } }\n", 2},
 		{"data-arn", "data \"d\" {\n  arn = var.v\n  id = \"i\"\n}\n", "{ \"data\": { \"d\": { \"arn\": \"${var.v}\", \"id\": \"i\" } } }\n", 2},
+		{"amapt-interpolated-key", "amapt = { (var.v) = \"x\", k = var.v }\n", "{ \"amapt\": { \"${var.v}\": \"x\", \"k\": \"${var.v}\" } }\n", 2},
 		{"mixed", "top = \"t\"\nvariable \"v\" {\n  type = number\n}\nout \"o\" {\n  value = var.v\n}\n",
 			"{ \"top\": \"t\", \"variable\": { \"v\": { \"type\": \"number\" } }, \"out\": { \"o\": { \"value\": \"${ var.v }\" } } }\n", 2},
 	}
